@@ -232,6 +232,7 @@ pub fn run(ctx: &Ctx, rep: &mut Report) {
         let mut remote: Vec<[u8; 32]> = Vec::new();
         let mut canon_taken_remotely: Vec<Address> = Vec::new();
         let mut alive = true;
+        let unknown_fns = unknown_entry_points("interchain-token-service", &["owner", "transfer_ownership", "version", "upgrade", "migrate"]);
         let mut opseq: Vec<&str> = OPS.to_vec();
         rng.shuffle(&mut opseq);
         opseq.insert(0, "deploy-fresh");
@@ -271,6 +272,60 @@ pub fn run(ctx: &Ctx, rep: &mut Report) {
             let (sname, supply) = *rng.pick(&SUPPLIES);
             let mclass = *rng.pick(&MINTERS);
             let deployer = w.users[rng.usize(2)].clone();
+            // entry points of the service this workload does not know, used by a deployer (everybody
+            // asked signs) with a salt and a token at hand. If one of them takes an id, that id is
+            // registered like any other: a local deployment for it must fail, and what it resolves to
+            // must never change (the sweep after every operation).
+            if !unknown_fns.is_empty() && rng.chance(1, 3) {
+                let admin = w.users[3].clone();
+                let tok = make_token(&mut w.u, if rng.chance(1, 2) { TokKind::Sac } else { TokKind::Native }, &admin, &mut rng).addr;
+                let usalt = rng.bytes32();
+                let env = w.u.env.clone();
+                let sv = soroban_sdk::BytesN::from_array(&env, &usalt);
+                let tuples: Vec<soroban_sdk::Vec<soroban_sdk::Val>> = {
+                    use soroban_sdk::IntoVal;
+                    vec![
+                        (deployer.clone(), sv.clone(), tok.clone()).into_val(&env),
+                        (deployer.clone(), tok.clone(), sv.clone()).into_val(&env),
+                        (deployer.clone(), sv.clone()).into_val(&env),
+                        (deployer.clone(), tok.clone()).into_val(&env),
+                        (tok.clone(),).into_val(&env),
+                    ]
+                };
+                let its = w.its.clone();
+                let n = w.u.try_unknown(&its, &unknown_fns, &tuples, &Auth::AsRecorded);
+                rep.count("unknown-entry-point-tried");
+                if n > 0 {
+                    rep.count("note:unknown-entry-point-accepted-a-call");
+                    for id in [w.view_token_id(&deployer, &usalt), w.view_canonical_id(&tok)] {
+                        if w.model.tokens.contains_key(&id) {
+                            continue;
+                        }
+                        if let Some((addr, ty)) = w.registry_entry(&id) {
+                            rep.step(format!("an entry point outside the pinned interface registered id {} (manager type {})", hex(&id[..6]), ty));
+                            let mode = if ty == 0 { TokMode::Native } else { TokMode::Lock };
+                            w.model.tokens.insert(id, TokenRec { id, addr, mode, name: vec![], symbol: vec![], decimals: 0, its_can_mint: ty == 0, minter: None });
+                            if id == w.view_token_id(&deployer, &usalt) {
+                                // the same deployer and salt again, through the ordinary entry point
+                                let o = w.do_deploy(&deployer, &usalt, b"Again", b"AGN", 7, 0, None, Auth::Only(vec![deployer.clone()]));
+                                rep.eval("deploy-after-unknown-entry-point", &format!("deploy-after-unknown|{}", o.ok()), true);
+                                if o.ok() {
+                                    rep.violation("taken-id-redeployed:after-an-unknown-entry-point", "a local deployment for an id that another entry point had registered succeeded".into());
+                                    alive = false;
+                                }
+                            }
+                        }
+                    }
+                    if !alive {
+                        continue;
+                    }
+                    if let Some(dd) = w.check_registry() {
+                        rep.violation("registry-entry-changed", dd);
+                        alive = false;
+                        continue;
+                    }
+                }
+            }
             let minter: Option<Address> = match mclass {
                 "none" => None,
                 "third-party" => Some(third.clone()),
